@@ -17,10 +17,6 @@ inductive CallPath (W : World) : Fn → List String → Prop
   | cons (fn : Fn) (it : Item) (f : String) (g : Fn) (rest : List String) :
       it ∈ fn.items → it.calleeName = some f → W.find f = some g → CallPath W g rest → CallPath W fn (f :: rest)
 
-def Item.isEval : Item → Prop
-  | .evalCall _ _ => True
-  | _ => False
-
 /-- the callee `f` has been analysed successfully from this body -/
 def Analysed (W : World) (rec : Analyse) (stack : List String) (f : String) : Prop :=
   ∃ g refs c r, W.find f = some g ∧ f ∉ stack ∧ rec refs (stack ++ [f]) g c = .ok r
